@@ -454,6 +454,9 @@ def rule_box(ctx: Ctx) -> None:
         ctx.check(ok_scaled, "C12-box", "DynamicObject.get_footprint", "scaled-about-centre",
                   f"the footprint points iterated are `{it[:80]}` built by {hist}; the object-frame footprint must be multiplied by `scale` before rotation and translation (scaling about the box centre)", fi=ff)
         pt = U(lp[0].node.target)
+        rvt = strip_v(S(p.retval)) if p.retval is not None else ""
+        ctx.check(rvt.startswith("Polygon(") and "rotated_footprint" in (rvt + " ".join(strip_v(S(e.value)) for e in p.effects[idx:] if e.kind == "assign")), "C12-box", "DynamicObject.get_footprint", "polygon-of-corners",
+                  f"the footprint returned is `{rvt[:80]}`; expected the polygon of the rotated, translated corners", fi=ff)
         for bp in lp[0].body:
             st = {S(strip_v(e.recv)): strip_v(S(e.value)) for e in bp.effects if e.kind == "store"}
             basg = {e.recv: strip_v(S(e.value)) for e in bp.effects if e.kind == "assign"}
@@ -462,6 +465,9 @@ def rule_box(ctx: Ctx) -> None:
             ok_aug = any(basg.get(r.split("[")[0]) == rp and r.endswith("[:2]") and nm == "Add" and v == "self.state.position[:2]" for r, nm, v in augs)
             ok = ok_aug or any(v == f"{rp}[:2]+self.state.position[:2]" for v in st.values()) or any(
                 basg.get(k.split("[")[0]) == rp and v == f"{k.split('[')[0]}[:2]+self.state.position[:2]" and k.endswith("[:2]") for k, v in st.items())
+            kept = [(a.recv, strip_v(S(a.args[0]))) for a in appends(bp)]
+            okk = len(kept) == 1 and kept[0][0] == "rotated_footprint" and not bp.conds and bp.exit == ("fall",) and kept[0][1] in (f"{n2}.tolist()" for n2 in basg) 
+            ctx.check(okk, "C12-box", "DynamicObject.get_footprint", "every-corner-kept", f"per footprint point the function keeps {kept}; every rotated, translated corner must be kept once, unconditionally", fi=ff)
             ctx.check(ok, "C12-box", "DynamicObject.get_footprint", "rotate-translate", f"a footprint point becomes {sorted(st.values())[:2]}; expected rotate(point)[:2] + position[:2]", fi=ff)
 
 
